@@ -214,3 +214,11 @@ Definition e2e_bp_ok (rf : regfile) (ce : pcase * e2e_t) : bool :=
   if err =? 0 then negb (clobbers_bp rf (instructions ns)) || ((N.land (fattrs (fst (fst ce))) NOFRAME =? 0) && negb (loc =? 0)) else true.
 Definition where_not2 (f : pcase * e2e_t -> bool) (cs : list pcase) (es : list e2e_t) : list N :=
   idx_where (fun c => negb (f c)) (List.combine cs es).
+
+(* after a successful pass.Compile no virtual register remains anywhere in an instruction: not among
+   the operands and not in the read/write sets the later passes (and users) consult *)
+Definition instr_all_regs (i : instr) : list reg :=
+  flat_map op_registers (operands i) ++ flat_map op_registers (inputs i) ++ flat_map op_registers (outputs i).
+Definition e2e_phys_ok (ce : pcase * e2e_t) : bool :=
+  let '(err, al, ns, loc) := snd ce in
+  if err =? 0 then forallb (fun i => forallb (fun r => negb (reg_is_virtual r)) (instr_all_regs i)) (instructions ns) else true.
